@@ -235,11 +235,11 @@ def run(tier, seed, factor=1):
                 "searches, each cleared of denominators and evaluated in Lean on the brute-force series of its classes to order N (beyond the "
                 "built-in check of 6); (c) closed forms of small parameter-free specifications: numerator/denominator vs the counts to order 30; "
                 "non-trivial = an equation that was evaluated; distinct by (rule, form) / config")
-    N = common.scale(tier, 7, 9)
-    jobs = [(seed * 967 + i, common.scale(tier, 5, 15), N) for i in range(common.scale(tier, 48, 300) * factor)]
+    N = common.scale(tier, 7, 8)
+    jobs = [(seed * 967 + i, common.scale(tier, 5, 15), N) for i in range(common.scale(tier, 48, 160) * factor)]
     fouts = [o for part in specrun.pool_map(form_worker, jobs) for o in part]
     rnd = random.Random(seed * 1000003 + 20)
-    souts = specrun.pool_map(spec_worker, [(c, N) for c in speccheck.make_configs(rnd, common.scale(tier, 100, 1500) * factor)])
+    souts = specrun.pool_map(spec_worker, [(c, N) for c in speccheck.make_configs(rnd, common.scale(tier, 100, 800) * factor)])
     specrun.quiet()
     lines, metas = [], []
     for o in fouts:
